@@ -26,6 +26,7 @@ pub trait AsI64 { fn as_i64(&self) -> i64; fn addr(&self) -> usize { 0 } }
 impl AsI64 for u32 { fn as_i64(&self) -> i64 { *self as i64 } }
 impl<A: BoundedOgreAllocator<u32> + Send + Sync + 'static> AsI64 for OgreUnique<u32, A> { fn as_i64(&self) -> i64 { **self as i64 } fn addr(&self) -> usize { &**self as *const u32 as usize } }
 impl<A: BoundedOgreAllocator<u32> + Send + Sync + 'static> AsI64 for OgreArc<u32, A> { fn as_i64(&self) -> i64 { **self as i64 } fn addr(&self) -> usize { &**self as *const u32 as usize } }
+impl AsI64 for &'static u32 { fn as_i64(&self) -> i64 { **self as i64 } fn addr(&self) -> usize { *self as *const u32 as usize } }
 impl AsI64 for Arc<u32> { fn as_i64(&self) -> i64 { **self as i64 } fn addr(&self) -> usize { &**self as *const u32 as usize } }
 
 pub fn sm_locs<const M: usize>(sm: &StreamsManagerBase<M>, locs: &mut LocMap) {
@@ -34,7 +35,7 @@ pub fn sm_locs<const M: usize>(sm: &StreamsManagerBase<M>, locs: &mut LocMap) {
     locs.array(a[1], 1, M, 220);
     locs.array(a[2], 4, M, 240);
     locs.cell(a[3], 260); locs.cell(a[4], 261); locs.cell(a[5], 262); locs.cell(a[6], 263); locs.cell(a[7], 264); locs.cell(a[8], 265);
-    for i in 0..M { locs.cell(NOTIFIED_BASE + i, 300 + i as i64); }
+    for i in 0..M { locs.cell(NOTIFIED_BASE + i, 300 + i as i64); locs.cell(NOTIFIED_BASE + 20 + i, 320 + i as i64); }
 }
 
 pub fn run_generic<C>(case: &Case, chan: Arc<C>, locs: LocMap, len_yield: Option<usize>, final_state: impl Fn(&C) -> Vec<i64>) -> Vec<i64>
@@ -45,7 +46,9 @@ where C: FullDuplexUniChannel<ItemType = u32> + Send + Sync + 'static,
     let mut streams = vec![];
     for _ in 0..k {
         let (stream, id) = chan.create_stream();
-        streams.push((id, Arc::new(Mutex::new(stream)), Arc::new(TaskWaker { id: id as usize, notified: AtomicBool::new(false) })));
+        streams.push((id, Arc::new(Mutex::new(stream)), Arc::new(TaskWaker { id: id as usize, notified: AtomicBool::new(false) }),
+                      // a second waker of the same task (`drivem`: the executor hands the stream a different waker at some polls)
+                      Arc::new(TaskWaker { id: 20 + id as usize, notified: AtomicBool::new(false) })));
     }
     let chan: &'static Arc<C> = Box::leak(Box::new(chan));
     let streams: &'static Vec<_> = Box::leak(Box::new(streams));
@@ -71,15 +74,21 @@ where C: FullDuplexUniChannel<ItemType = u32> + Send + Sync + 'static,
                             keen_retry::RetryResult::Fatal { .. }     => ret(tid, 99, 0, 0),
                         }
                     },
-                    "poll" | "drive" => {
+                    "poll" | "drive" | "drivem" => {
                         let i = op.arg(0) as usize;
-                        let drive = op.name == "drive";
-                        let (id, stream, task) = &streams[i];
+                        let drive = op.name != "poll";
+                        // drivem:i:mask - poll number j (j < 16) is made with the task's second waker iff bit j of mask is set; later polls
+                        // keep the waker of poll 15; the task parks on the flag of the waker it passed to its latest poll
+                        let mask = if op.name == "drivem" { op.arg(1) as u64 } else { 0 };
+                        let (id, stream, task_a, task_b) = &streams[i];
                         let id = *id as usize;
                         let mut stream = stream.lock().unwrap_or_else(|p| p.into_inner());
-                        let waker = Waker::from(task.clone());
-                        let mut cx = Context::from_waker(&waker);
+                        let mut polls = 0u32;
                         loop {
+                            let task = if (mask >> polls.min(15)) & 1 == 1 { task_b } else { task_a };
+                            polls += 1;
+                            let waker = Waker::from(task.clone());
+                            let mut cx = Context::from_waker(&waker);
                             match stream.poll_next_unpin(&mut cx) {
                                 Poll::Ready(Some(item)) => {
                                     ret(tid, 12, item.as_i64(), id as i64);
@@ -95,7 +104,7 @@ where C: FullDuplexUniChannel<ItemType = u32> + Send + Sync + 'static,
                                     if !drive { break }
                                     loop {
                                         let mut notified = false;
-                                        verif::yield_value("parked", NOTIFIED_BASE + id, || { notified = task.notified.swap(false, SeqCst); notified as u64 });
+                                        verif::yield_value("parked", NOTIFIED_BASE + task.id, || { notified = task.notified.swap(false, SeqCst); notified as u64 });
                                         if notified { break }
                                     }
                                 },
@@ -158,6 +167,19 @@ where C: FullDuplexUniChannel<ItemType = u32> + Send + Sync + 'static,
     out.push(9);
     out.extend(final_state(chan));
     wind_down(handles, 0);
+    if case.get("probe", 0) == 1 {
+        // (kinds without a lock-step model) with everything drained and released, the channel accepts exactly BUFFER_SIZE events again
+        let waker = futures::task::noop_waker();
+        let mut cx = Context::from_waker(&waker);
+        for (_id, stream, _a, _b) in streams.iter() {
+            let mut stream = stream.lock().unwrap_or_else(|p| p.into_inner());
+            for _ in 0..10_000 { match stream.poll_next_unpin(&mut cx) { Poll::Ready(Some(item)) => drop(item), _ => break } }
+        }
+        let n = case.get("N", 4);
+        let mut accepted = 0;
+        for e in 0..n + 1 { if let keen_retry::RetryResult::Ok { .. } = chan.send(900_000 + e as u32) { accepted += 1; } }
+        out.extend_from_slice(&[-2, accepted]);
+    }
     out
 }
 
@@ -244,7 +266,7 @@ fn zc_full_sync<const N: usize, const M: usize>(case: &Case) -> Vec<i64> {
 fn crossbeam<const N: usize, const M: usize>(case: &Case) -> Vec<i64> {
     let chan = ChannelUniMoveCrossbeam::<u32, N, M>::new("c");
     let mut locs = LocMap::new();
-    for i in 0..M { locs.cell(NOTIFIED_BASE + i, 300 + i as i64); }
+    for i in 0..M { locs.cell(NOTIFIED_BASE + i, 300 + i as i64); locs.cell(NOTIFIED_BASE + 20 + i, 320 + i as i64); }
     locs.cell(2, 2);
     run_generic(case, chan, locs, None, |_c| vec![])
 }
